@@ -99,6 +99,18 @@ class FamList(list):
     """python list whose items may be FamItem (appended inside an abstract loop)"""
 
 
+@dataclass(eq=False)
+class DTypeV:
+    """the dtype of a numpy value (floating for what the engine creates, whatever the caller
+    chose for caller-supplied arrays)"""
+    of: Any
+
+
+@dataclass(eq=False)
+class _AsType:
+    x: Any
+
+
 class KeysV(list):
     """the keys of a dict at the time of the call (set-like in comparisons)"""
 
@@ -893,6 +905,10 @@ class Interp:
             return bool(v)
         if isinstance(v, IndexSet):
             raise self.err(node, "truth value of an abstract index set")
+        if isinstance(v, FamItem):
+            t = v.term
+            if isinstance(t, (bool, int, float, str)) or t is None or isinstance(t, (Obj, tuple)):
+                return self.truth(t, node, fr)  # the same for every member of the family
         raise self.err(node, f"truth value of {type(v).__name__}")
 
     # ---------------------------------------------------------- expressions
@@ -1367,6 +1383,10 @@ class Interp:
                 return o
             if attr == "copy":
                 return _Const(TV(o.t, o.rank, True, ""))
+            if self.lib == "numpy" and attr == "dtype":
+                return DTypeV(o)
+            if self.lib == "numpy" and attr == "astype":
+                return _AsType(o)
             if self.world is not None:
                 r = self.world.getattr(self, o, attr, node)
                 if r is not NotImplemented:
@@ -1595,6 +1615,17 @@ class Interp:
             return self.call_closure(f, args, kwargs, n)
         if isinstance(f, _Const):
             return f.v
+        if isinstance(f, _AsType):
+            dt = args[0] if args else kwargs.get("dtype")
+            x = f.x
+            if isinstance(dt, DTypeV) and isinstance(dt.of, TV) and not dt.of.fresh and "caller" in (dt.of.origin or ""):
+                self.event("dtype-cast", n,
+                           f"`{short(n, 60)}` casts a computed value to the dtype of caller-supplied data "
+                           f"({dt.of.origin or E.fmt(dt.of.t, 40)}): integer arrays truncate the result")
+            elif not (isinstance(dt, DTypeV) or dt is float or (isinstance(dt, Builtin) and dt.name == "float")):
+                raise self.err(n, f"astype({dt!r}) is not modelled")
+            cp = kwargs.get("copy", True)
+            return TV(x.t, x.rank, True if cp else x.fresh, x.origin)
         if isinstance(f, _Getter):
             def one(k):
                 if f.item:
@@ -1727,6 +1758,8 @@ class Interp:
                 return AbsInt(f"len({v.name})", link=v.link)
             if isinstance(v, ShapeV):
                 return v.nd
+            if isinstance(v, (GenV, IterV)):
+                raise Raised("TypeError", n, fr.fi, "object of type 'generator' has no len()")
             if isinstance(v, TV):
                 self.event("symbolic-len", n, "len() of a symbolic value")
                 raise self.err(n, "len of a symbolic value")
@@ -1741,6 +1774,20 @@ class Interp:
                 # members are non-empty tuples: truthy
                 return (v.card != 0) if name == "any" else True
             items = self.iterate(v, n, fr)
+            syms = [x for x in items if isinstance(x, TV)]
+            if len(syms) > 1 and all(self._is_scalar(x) for x in syms):
+                # several symbolic operands: one decision on "all of them are non-zero" (their
+                # product) / "one of them is non-zero" (the sum of their squares), not one each
+                rest = [self.truth(x, n, fr) for x in items if not isinstance(x, TV)]
+                if name == "all" and not all(rest):
+                    return False
+                if name == "any" and any(rest):
+                    return True
+                acc = None
+                for x in syms:
+                    t = x.t if name == "all" else E.mul(x.t, x.t)
+                    acc = t if acc is None else (E.mul(acc, t) if name == "all" else E.add(acc, t))
+                return self.truth(TV(("cmp", "ne", acc, E.ZERO), 0), n, fr)
             rs = [self.truth(x, n, fr) for x in items]
             return any(rs) if name == "any" else all(rs)
         if name == "isinstance":
@@ -1795,6 +1842,8 @@ class Interp:
         if name == "hasattr":
             o, a = args
             if isinstance(o, TV):
+                if self.lib == "numpy" and a in ("dtype", "astype", "copy", "size", "ndim"):
+                    return True
                 return a == "shape"
             if isinstance(o, Obj):
                 try:
